@@ -29,7 +29,7 @@ class Unit:
     def __init__(self, name, props, tu, roots, target, contracts, harness=None, replace=(), stops=(), unwind=None,
                  defines=(), quick_defines=(), thorough_defines=(), tiers=("quick", "thorough"), replay=None,
                  kind="proof", bound_note="", timeout=None, extra_cbmc=(), loop_contracts=False, trusted=(),
-                 note="", mutants=(), solver=None, object_bits=None, no_canary=False, known=(), spec_target=False):
+                 note="", mutants=(), solver=None, object_bits=None, no_canary=False, known=(), spec_target=False, unwindset=(), quick_unwind=None):
         self.name = name
         self.props = list(props)
         self.tu = tu
@@ -57,6 +57,8 @@ class Unit:
         self.object_bits = object_bits
         self.no_canary = no_canary
         self.known = list(known)
+        self.unwindset = list(unwindset)    # e.g. ['verif_memset.0:66']
+        self.quick_unwind = quick_unwind
         self.spec_target = spec_target   # target is a lemma defined in the contracts header, not a lowered function
 
 
@@ -190,8 +192,11 @@ class Runner:
         if "not side-effect free" in gi_log or "ignoring" in gi_log.lower():
             raise Undecided("goto-instrument dropped part of a contract for %s: %s" % (tag, gi_log.strip()[-400:]))
         flags = list(CBMC_FLAGS) + list(unit.extra_cbmc)
-        if unit.unwind is not None:
-            flags += ["--unwind", str(unit.unwind)]
+        uw = unit.quick_unwind if (self.tier == "quick" and unit.quick_unwind is not None) else unit.unwind
+        if uw is not None:
+            flags += ["--unwind", str(uw)]
+        if unit.unwindset:
+            flags += ["--unwindset", ",".join(unit.unwindset)]
         if unit.object_bits:
             flags += ["--object-bits", str(unit.object_bits)]
         if unit.solver:
@@ -206,6 +211,8 @@ class Runner:
             f.write(out)
         if rc == -9:
             raise Undecided("cbmc timeout (%ss) for %s" % (timeout, tag))
+        if "ran out of memory" in out or "std::bad_alloc" in out + err:
+            raise Undecided("cbmc ran out of memory (%s GB cap) for %s" % (mem, tag))
         props = self._parse_results(out)
         if props is None:
             raise Undecided("cbmc gave no result list for %s (rc=%s): %s" % (tag, rc, (out[-500:] + err[-300:]).strip()))
@@ -215,7 +222,7 @@ class Runner:
         oblig = [p for p in props if CANARY not in p["description"]]
         unw = [p for p in oblig if p["status"] != "SUCCESS" and "unwinding assertion" in p["description"]]
         if unw:
-            raise Undecided("unwinding bound %s too small in %s: %s" % (unit.unwind, tag, ", ".join(p["property"] for p in unw[:4])))
+            raise Undecided("unwinding bound %s too small in %s: %s" % (uw, tag, ", ".join(p["property"] for p in unw[:4])))
         if not unit.no_canary:
             if not canary:
                 raise Undecided("no canary obligation in %s" % tag)
